@@ -71,11 +71,15 @@ def prepare(prop, tier):
 # ----------------------------------------------------------------------------
 def val(ident, name, k, salt=0):
     """a small exactly representable value for component k of property name"""
-    return int(ident) * 8 + (NAMES.index(name) if name in NAMES else 0) % 5 + k + 16 * salt
+    # (identities themselves can be overwritten by set(ident=...) and would grow by a factor 24 each time: keep the values
+    # small enough for a float32 / int32 property whatever the history)
+    return (int(ident) % 100003) * 8 + (NAMES.index(name) if name in NAMES else 0) % 5 + k + 16 * salt
 
 
 def cast(ctype, v):
-    if ctype in ('double', 'float'):
+    if ctype == 'float':
+        return float(np.float32(float(v) + 0.25))
+    if ctype == 'double':
         return float(v) + 0.25
     if ctype == 'unsigned int':
         return int(abs(v)) + 7
